@@ -22,7 +22,7 @@ EXPLANATION = (
 NOT_DECIDED = ["rotation invariance", "float32 cancellation for translations of hundreds of nm", "the voxel arithmetic of the cell list (positions are compared with box edges by design; C10-R3 decides the wrapping precondition)",
                "quadrature error of SASA under rotation"]
 ASSUMPTIONS = ["parameter roles (which pointer holds positions, which the box) as tabulated in the checker and confirmed against the callers"]
-FLOORS = {"C09-R1": 15, "C09-R2": 8, "C09-R3": 5}
+FLOORS = {"C09-R1": 15, "C09-R2": 8, "C09-R3": 25}
 
 CONST, INV, BOX, LAT, REL, ABS = range(6)
 NAMES = ["CONST", "INV", "BOX", "LAT", "REL", "ABS"]
@@ -512,6 +512,8 @@ class PyTaint:
         if cn in ("range", "len", "int", "float", "np.arange", "np.zeros", "np.empty", "np.ones", "np.eye", "np.full"):
             return CONST
         if cn in _PRODUCT_FUNCS or last in ("norm", "einsum", "dot"):
+            if last == "einsum" and ABS in args and self._is_weighting(n) and sum(1 for a in args if a == ABS) == 1:
+                return ABS           # weights . positions: a (weighted) centre
             if ABS in args:
                 self.bad(n, "%s of absolute positions: `%s`" % (cn, src(n)[:70]))
             return INV
@@ -633,6 +635,9 @@ def r3(ctx, cf):
             continue
         ctx.decide(not pos_round and bool(seen), "C09-R3", C.line(fn), rel, fname, "%d rounding calls, none on an absolute position" % len(seen), "",
                    "a lattice reduction is computed from an absolute position (line %s): the result changes when an atom is moved by a lattice vector" % (pos_round[0][0] if pos_round else "?"))
+    # an observable is lattice-invariant only if every distance it is built from is a minimum-image distance: `periodic` reaches every callee
+    from .c05 import periodic_plumbing
+    periodic_plumbing(ctx, "C09-R3", floor=20)
     # the cell list: wrapped copy (decided in C10-R3) - here only that the final distance test uses a difference
     fn = cf.function(NL, "getNeighbors")
     d = [v for v in C.walk(fn) if v["kind"] == "VarDecl" and v.get("name") == "delta" and C.kids(v) and re.sub(r"\s", "", C.text(C.kids(v)[-1])) == "(atomPos-centerPosVec)"]
